@@ -416,7 +416,49 @@ def m_saveto(kind):
     return f
 
 
+def m_seq(kind):
+    """errors whose detection depends on rows seen earlier (state carried along the row loop / across elements)"""
+    def f(rows, nodes, i, ch):
+        k = _row_of(rows, i)
+        q = nodes[i]["kind"] == "q"
+        if kind == "select-param-after-from-file":
+            if not q:
+                raise Skip
+            rows[k].update(type="select_one c", parameters="value=a", label="L")
+            rows[k].pop("calculation", None)
+            rows.insert(0, {"type": "select_one_from_file f.csv", "name": "ff0", "label": "F", "parameters": "value=a label=b"})
+            return E(k + 1, False, ["value"])
+        if kind == "select-param-label-after-from-file":
+            if not q:
+                raise Skip
+            rows[k].update(type="select_multiple c", parameters="randomize=true label=b", label="L")
+            rows[k].pop("calculation", None)
+            rows.insert(0, {"type": "select_multiple_from_file f.xml", "name": "ff0", "label": "F"})
+            return E(k + 1, False, ["label"])
+        if kind in ("instance-clash-interleaved", "instance-clash-adjacent"):
+            if i != 0:
+                raise Skip
+            ext = [{"type": "xml-external", "name": "zz1"}, {"type": "xml-external", "name": "zz2"}]
+            if kind.endswith("adjacent"):
+                ext = [ext[0]]
+            rows.extend([*ext, {"type": "begin group", "name": "gz9", "label": "G"}, {"type": "xml-external", "name": "zz1"}, {"type": "end group"}])
+            return E(None, False, ["zz1"])
+        if kind == "instance-clash-csv-interleaved":
+            if i != 0:
+                raise Skip
+            rows.extend([{"type": "csv-external", "name": "zz1"}, {"type": "xml-external", "name": "zz2"}, {"type": "csv-external", "name": "zz3"},
+                         {"type": "begin group", "name": "gz9", "label": "G"}, {"type": "csv-external", "name": "zz1"}, {"type": "end group"}])
+            return E(None, False, ["zz1"])
+        raise AssertionError(kind)
+    return f
+
+
 CATALOGUE = {
+    "select-param-after-from-file": m_seq("select-param-after-from-file"),
+    "select-param-label-after-from-file": m_seq("select-param-label-after-from-file"),
+    "instance-clash-interleaved": m_seq("instance-clash-interleaved"),
+    "instance-clash-adjacent": m_seq("instance-clash-adjacent"),
+    "instance-clash-csv-interleaved": m_seq("instance-clash-csv-interleaved"),
     "saveto-in-repeat": m_saveto("in-repeat"),
     "saveto-on-container": m_saveto("on-container"),
     "saveto-bad-name": m_saveto("bad-name"),
